@@ -202,6 +202,19 @@ CHECKS['C15'] = dict(
          'external links in .xlsx are not generated.',
     technique='Lean 4 proof (evaluation locality on the workbook model) + partial-vs-full differential check')
 
+CHECKS['C13'] = dict(
+    text=('Lean 4 theorems (XL.Props.C13): volatile_registered (NOW, TODAY, RAND, RANDBETWEEN carry the COMPILING extra '
+          'input in the function table generated from the source), compile_time_value (the model of the compile-time '
+          'pre-evaluation never assigns a value to an expression that contains a volatile call, at any depth and argument '
+          'position — structural induction over the whole expression type), randbetween_in_range (the integer draw lies '
+          'within its bounds for every u in [0,1)). PARTIAL: the wall clock and numpy\'s generator cannot be exhibited in '
+          'Lean; "evaluated afresh on every call" and "every dependent sees one value" are observed with the clock and '
+          'numpy.random.rand replaced by counters, on formulas with a volatile call at every depth/argument position '
+          'and on workbooks obtained by from_dict, .xlsx load, ExcelModel.compile, deepcopy, dill and JSON import.'),
+    design='DESIGN.md §3 C13',
+    note=COMMON_NOTE + 'Partial: the runtime part (clock, RNG, pickling) is decided on the implementation only.',
+    technique='Lean 4 proof on generated tables and the compile-time evaluation model + counter-clock observation of the implementation')
+
 NOT_YET = {
 }
 
